@@ -1,8 +1,8 @@
 SPECIFICATION Spec
 CONSTANTS
-  Intervals = {100000}
+  Intervals = {20000, 100000}
   Cycles = {31250}
   MaxLen = 2
-  MaxIter = 1
+  MaxIter = 3
   MaxOps = 3
 CHECK_DEADLOCK FALSE
